@@ -205,8 +205,9 @@ class Rec(object):
 class Seq(object):
     """A tuple- or list-like value whose items are abstract values."""
 
-    def __init__(self, items):
+    def __init__(self, items, fields=None):
         self.items = list(items)
+        self.fields = fields        # a namedtuple: the names of the items
 
 
 class PyDict(object):
@@ -224,7 +225,9 @@ def lift(v):
     if isinstance(v, int):
         return BV.const(v)
     if isinstance(v, (tuple, list)):
-        return Seq([lift(x) for x in v])
+        ntc = getattr(v, 'ntc', None)
+        return Seq([lift(x) for x in v],
+                   fields=ntc.fields if ntc is not None else None)
     if isinstance(v, dict) and all(isinstance(k, (str, int))
                                    for k in v):
         return PyDict({k: lift(x) for k, x in v.items()})
@@ -317,6 +320,9 @@ class BitInterp(object):
                     if isinstance(lv, (BV, Seq, PyDict, str, bool)):
                         return lv
             base = self.ev(e.value, env)
+            if isinstance(base, Seq) and base.fields and \
+                    e.attr in base.fields:
+                return base.items[base.fields.index(e.attr)]
             if isinstance(base, Rec):
                 if e.attr not in base.attrs:
                     raise self.err('record attribute %s read before it is '
@@ -836,6 +842,30 @@ class BitInterp(object):
                 self.fi = outer_fi
                 self._depth -= 1
             return res
+        # a namedtuple of the module: a sequence with named items
+        if isinstance(f, ast.Name) and f.id not in env:
+            from .fold import NTClass
+            try:
+                ntc = self.F.eval(f, Env(self.fi.module))
+            except (AnalysisError, FoldRaise):
+                ntc = None
+            if isinstance(ntc, NTClass):
+                if any(k.arg is None for k in e.keywords) or any(
+                        isinstance(a, ast.Starred) for a in e.args):
+                    raise self.err('*args / **kwargs to a namedtuple', e)
+                vals = dict(zip(ntc.fields, [self.ev(a, env)
+                                             for a in e.args]))
+                if len(e.args) > len(ntc.fields):
+                    raise self.err('too many fields for %s' % ntc.name, e)
+                for k in e.keywords:
+                    if k.arg not in ntc.fields or k.arg in vals:
+                        raise self.err('bad field %s for %s' % (
+                            k.arg, ntc.name), e)
+                    vals[k.arg] = self.ev(k.value, env)
+                if set(vals) != set(ntc.fields):
+                    raise self.err('fields of %s not all given' % ntc.name,
+                                   e)
+                return Seq([vals[n] for n in ntc.fields], fields=ntc.fields)
         # constructor of the result: cls(...), Position(x=..), Name(...)
         args = [self.ev(a, env) for a in e.args]
         kws = {}
@@ -929,7 +959,7 @@ class BitInterp(object):
             if isinstance(v, Rec):
                 out[k] = Rec(v.attrs, v.name)
             elif isinstance(v, Seq):
-                out[k] = Seq(v.items)
+                out[k] = Seq(v.items, v.fields)
             elif isinstance(v, PyDict):
                 out[k] = PyDict(v.items)
             else:
